@@ -353,6 +353,16 @@ pub struct Kernel {
     pub full_only: Vec<i32>,
     /// The application is inside `Ring::drop`.
     pub in_ring_drop: bool,
+    /// Kernel waits (blocking part of io_uring_enter) of multi-threaded
+    /// runs: (thread, start stamp, end stamp, expired).
+    pub wait_log: Vec<(usize, u64, u64, bool)>,
+}
+
+/// Global logical clock (event sequence numbers, not time).
+pub static SEQ: std::sync::atomic::AtomicU64 = std::sync::atomic::AtomicU64::new(0);
+
+pub fn stamp() -> u64 {
+    SEQ.fetch_add(1, Ordering::AcqRel)
 }
 
 static KERNEL: Mutex<Option<Kernel>> = Mutex::new(None);
@@ -419,7 +429,9 @@ pub fn reset(cfg: KCfg) {
             held_ranges: Vec::new(),
             full_only: Vec::new(),
             in_ring_drop: false,
+            wait_log: Vec::new(),
         });
+        SEQ.store(0, Ordering::Release);
     });
 }
 
@@ -1643,6 +1655,14 @@ impl Kernel {
         if fd >= FD_BASE || (0..=2).contains(&fd) {
             stats::inc(C::probe_sync_close_fallback);
             let res = self.close_regular(fd, "close(2)");
+            if res == 0 && fd > 2 && tape::chance(site::FAULT, self.cfg.p_close_err, 100) {
+                // Linux releases the descriptor before it reports EINTR (or a
+                // write-back error): the number may be in use again already.
+                stats::inc(C::fault_close_error);
+                let e = if tape::chance(site::FAULT, 1, 2) { libc::EINTR } else { libc::EIO };
+                ev!("k close(2) -> {} (descriptor released)", errno_name(e));
+                return Some(fail(e));
+            }
             return Some(if res < 0 { fail(-res) } else { 0 });
         }
         // The ring's own descriptor (eventfd) and real descriptors (inotify,
@@ -1720,7 +1740,7 @@ unsafe fn h_enter(
                 want,
                 timeout_ns,
             };
-            crate::sched::wait(&w)
+            alloc::harness(|| crate::sched::wait(&w))
         }
     }
 }
@@ -1811,4 +1831,9 @@ static HOOKS: a10::verif::Hooks = a10::verif::Hooks {
 
 pub fn install() {
     a10::verif::install(&HOOKS);
+}
+
+/// The hook table (used by the conformance suite to drive the stub directly).
+pub fn hooks() -> &'static a10::verif::Hooks {
+    &HOOKS
 }
